@@ -341,6 +341,8 @@ def h_case(case):
             slots.append((k, r["slot"]))
             continue
         slot = dict(slots)[k]
+        if case.get("shuffle") and st == "run":
+            d.cmd("heapshuffle", str(case["shuffle"]))      # again right before the run: the load has used up the first lists
         obs[k].append(h_step(d, slot, names[k], st))
         nops += 1
     keys = [h_canon(o) for o in obs]
@@ -377,7 +379,7 @@ def part_h(tier, ev, findings, pool, dl, stats):
         base.setdefault(a, k)
     ev.bound("lone-instance baselines: %d inputs x {fresh process x2, used process}" % len(names), True, cases=len(base_cases))
     pert_cases = [{"a": a, "b": None, "order": "0" * n, "fresh": True, "perturb": p} for a in names for p in (85, 170)]
-    pert_cases += [{"a": a, "b": None, "order": "0" * n, "fresh": True, "perturb": 85, "shuffle": k} for a in names for k in (8, 64)]
+    pert_cases += [{"a": a, "b": None, "order": "0" * n, "fresh": True, "perturb": 85, "shuffle": k} for a in names for k in (64, 2000)]
     for res in pool.map(h_case, pert_cases, 1, ordered=True):
         ev.traces += 1
         ev.transitions += res["ops"]
@@ -393,7 +395,7 @@ def part_h(tier, ev, findings, pool, dl, stats):
                                 ("input %s: a lone fresh instance observes something different when malloc hands out blocks filled with byte %d "
                                  "instead of fresh zero pages (as after another instance was destroyed): some state is not initialised" % (a, res["case"]["perturb"]), res))
     core.close_drvs()
-    ev.bound("heap differential: %d inputs x {newly allocated memory filled with 0x55 / 0xAA (MALLOC_PERTURB_), small free lists pre-filled with 8 / 64 rounds of blocks (next allocations at descending addresses)}" % len(names), True, cases=len(pert_cases))
+    ev.bound("heap differential: %d inputs x {newly allocated memory filled with 0x55 / 0xAA (MALLOC_PERTURB_), small free lists pre-filled with 64 / 2000 rounds of blocks before the instance is created and again before its run (next allocations at descending addresses)}" % len(names), True, cases=len(pert_cases))
     pairs = [(a, b) for a in names for b in names] if tier == "thorough" else [(a, b) for i, a in enumerate(names) for b in names[i:]]
     orders = list(interleavings(n))
     cases = [{"a": a, "b": b, "order": o} for (a, b) in pairs for o in orders]
